@@ -158,6 +158,22 @@ def cases(tier, rng):
         if a:
             for x in (0.0, 2.0, 4.0, 5.0):
                 out.append(("setMember", [x, a], None))
+    # sets under a key function that is not injective on the elements: two different elements with the
+    # same key, one in each set - the definition std.set(a + b, keyF) keeps the element of the first set
+    kfield = S.KEYFNS[4]
+    kmod = S.JFn("function(x) x % 10", lambda x: S.num(x) % 10)
+    keys_ = [0.0, 1.0, 2.0, 3.0]
+    for ma in range(1, 16):
+        for mb in range(1, 16):
+            if (ma * 16 + mb) % (1 if tier == "thorough" else 3):
+                continue
+            ka = [k for i, k in enumerate(keys_) if ma >> i & 1]
+            kb = [k for i, k in enumerate(keys_) if mb >> i & 1]
+            for fn in ("setUnion", "setInter", "setDiff"):
+                out.append((fn, [[{"k": k, "tag": "a"} for k in ka], [{"k": k, "tag": "b"} for k in kb], kfield], None))
+                out.append((fn, [[10.0 + k for k in ka], [20.0 + k for k in kb], kmod], None))
+    out.append(("set", [[{"k": 1.0, "tag": "x"}, {"k": 0.0, "tag": "y"}, {"k": 1.0, "tag": "z"}], kfield], None))
+    out.append(("uniq", [[11.0, 21.0, 12.0, 32.0, 2.0], kmod], None))
     # string sets and mixed errors
     for a, b in itertools.product([[], ["a"], ["a", "b"], ["b", "c"]], repeat=2):
         for fn in ("setUnion", "setInter", "setDiff"):
